@@ -10,6 +10,16 @@ CHECKS = {
    "Every string up to length 6 (quick) / 8 (thorough) over a 10-symbol alphabet of '%', hex digits of both cases, a non-hex letter, unreserved and reserved bytes is passed to the real uri.NormalizeEscapedPath and decided by a reference normaliser (validity, canonical form, octet preservation, idempotence, no panic); plus PRNG byte strings; plus the parser's duplicate-path-key detection on equivalent and non-equivalent key pairs. Held = no observed execution disagreed with the reference.",
    "Reference normaliser written from RFC 3986 and the property text; routing consequence is observed on regenerated servers by the C05 engine.",
    "DESIGN.md §2 C12"),
+ "C14": ("genlab", "exploration",
+   "differential execution: regenerate every go:generate directive with tools built from /repo and compare bytes with the checked-in files",
+   "The finite set of go:generate directives (41 with present inputs) is enumerated completely; cmd/ogen, cmd/jschemagen and tools/mkformattest are built from the current tree and run with the directive's own arguments into scratch; every produced file must be byte-identical to the checked-in one and no checked-in generated file may be left unreproduced. Thorough repeats under GOMAXPROCS=1 and 3.",
+   "Runs in a mirror directory (symlinks) so relative paths equal the directive's; GOPACKAGE/GOFILE set as go generate does; the emptied k8s input is skipped and listed.",
+   "DESIGN.md §2 C14"),
+ "C20": ("genlab", "fault_enumeration",
+   "fault enumeration on the built cmd/ogen binary with directory-snapshot oracle; strace read-fault injection and syscall trace monitor",
+   "Every listed pre-write failure stage (25 stages: flags, config, spec read, YAML/JSON parse, version, validation, dangling/missing/cyclic refs, not-implemented, IR conflicts, route conflicts) x {--clean, no --clean} x 7 target states is executed with the binary built from the current tree; a failing run must exit non-zero and leave the recursive snapshot of the target identical; successful runs may only create/modify/remove top-level regular files with the generator's naming pattern. Thorough adds EIO injected by strace on the N-th read of spec and config and a syscall-level monitor.",
+   "Failure stage is by construction of the case. Snapshots cover names, types, modes, sizes, sha256 and link targets (not timestamps).",
+   "DESIGN.md §2 C20"),
 }
 NOT_YET = {}
 for i in range(1, 21):
